@@ -12,6 +12,7 @@ def claim(pid, technique, text, note, ref):
 
 exec(open(os.path.join(HERE, 'tools', 'claims.py')).read())
 
+ADDENDA = globals().get('ADDENDA', {})
 NOT_APPLICABLE = {}
 checks = []
 for pid in ALL:
@@ -19,6 +20,7 @@ for pid in ALL:
         NOT_APPLICABLE[pid] = NOT_CLAIMED_REASON.get(pid, 'check not built yet')
         continue
     tech, text, note, ref = CLAIMED[pid]
+    text = text + ADDENDA.get(pid, '')
     checks.append({
         'property_id': pid,
         'quick_cmd': './check %s --tier quick' % pid,
